@@ -32,7 +32,7 @@ FINDINGS = {
     "C04-misread": "a damaged file loads without error to a state that was never written",
 }
 
-DRV_FACTS = ["validatesCrc", "validatesULen", "boundsCompressedSize", "boundsDecodedLen", "parseConsumesAll"]
+DRV_FACTS = ["validatesCrc", "validatesULen", "boundsCompressedSize", "boundsDecodedLen", "parseConsumesAll", "shortPayloadIsEOF"]
 
 
 def alloc_bound(n):
